@@ -16,3 +16,7 @@ func init() {
 func init() {
 	props["TXN"] = []Stream{{"txn", genTxn}}
 }
+
+func init() {
+	props["C12"] = []Stream{{"cleaner", genCleaner}}
+}
